@@ -196,9 +196,11 @@ func rulePathSeek(c *Ctx, r *Rep, tier string) {
 		why += " Seek never sets lastChunk;"
 	}
 	var seekCall ssa.Instruction
+	var seekCalls []ssa.Instruction
 	allInstrs(fn, func(ins ssa.Instruction) {
 		if isInvokeOnField(ins, fCur, "seek") {
 			seekCall = ins
+			seekCalls = append(seekCalls, ins)
 		}
 	})
 	if seekCall == nil {
@@ -260,8 +262,11 @@ func rulePathSeek(c *Ctx, r *Rep, tier string) {
 			}
 			return false
 		}
-		if bad, ok := mustPass(locOf(seekCall), isReturn, isLC, nilEdge); !ok {
-			why += fmt.Sprintf(" a successful seek returns at %s without updating lastChunk;", c.Pos(bad.Pos()))
+		// every in-block seek (a shortcut for the block already held has its own)
+		for _, sc := range seekCalls {
+			if bad, ok := mustPass(locOf(sc), isReturn, isLC, nilEdge); !ok {
+				why += fmt.Sprintf(" the in-block seek at %s can succeed and Seek return at %s without updating lastChunk: LastChunk() still describes the read before the Seek, and a reader restricted to a chunk (bam.Reader.SetChunk, index.ChunkReader) compares that stale end with the chunk's;", c.Pos(sc.Pos()), c.Pos(bad.Pos()))
+			}
 		}
 	}
 	// the sticky error is re-assigned on every path that is not the not-a-seeker return
